@@ -18,11 +18,16 @@
 (*  "L"  names with a slash (./n /d1/n r/n /nx/n) x kind of that file      *)
 (*  "P"  command -p: standard path /std:/d2 against PATH=/d1               *)
 (*  "K"  reserved words                                                    *)
+(*  "X"  (Real = TRUE, instead of the others) the PATH search on the real  *)
+(*       kernel: the names nno (no built-in) and true (substitutive), all  *)
+(*       four directories under the working directory (/w/d1 /w/d2 "" r),  *)
+(*       every kind of file in each                                        *)
 (* Slice > 1 keeps a 1/Slice sample (selected by SEED) of family S.        *)
 (***************************************************************************)
 EXTENDS CmdSearch, Json, IOUtils, FiniteSets
 
-CONSTANTS MaxPath, Slice
+CONSTANTS MaxPath, Slice,
+          Real      \* TRUE: only family "X" (for the run on the real operating system)
 
 Seed == IF "SEED" \in DOMAIN IOEnv THEN (CHOOSE n \in 0..9999 : ToString(n) = IOEnv.SEED) ELSE 1
 
@@ -40,6 +45,10 @@ Kinds == <<"none", "exec", "plain", "dir">>
 KeywordNames == <<"if", "done", "{", "!", "in">>
 SlashNames == <<"./nno", "/d1/nno", "r/nno", "/nx/nno", ".//nno">>
 SlashAbs == <<"/w/nno", "/d1/nno", "/w/r/nno", "/nx/nno", "/w/nno">>
+XDirTab == <<"/w/d1", "/w/d2", "", "r">>
+XDirAbs == <<"/w/d1", "/w/d2", "/w", "/w/r">>
+XSlashNames == <<"./nno", "r/nno", "/w/d1/nno">>
+XSlashAbs == <<"/w/nno", "/w/r/nno", "/w/d1/nno">>
 
 VARIABLES fam, ni, fn, al, op, pi, fk
 \* fam: family ("" = root); ni: index of the name; fn/al: function / alias of that name defined;
@@ -49,36 +58,52 @@ vars == <<fam, ni, fn, al, op, pi, fk>>
 
 Perms(k) == { p \in UNION { [1..m -> 1..4] : m \in 1..k } : \A i, j \in DOMAIN p : i # j => p[i] # p[j] }
 
+RECURSIVE Hash(_, _)
+Hash(q, i) == IF i > Len(q) THEN 7 ELSE (q[i] * 31 + Hash(q, i + 1) * 17) % 10007
+
+(* the sample of families S and X (all of them if Slice <= 1) *)
+Sampled(p, f) ==
+  Slice <= 1 \/ (Hash(p \o f \o <<ni, op, IF fn THEN 1 ELSE 0, IF al THEN 1 ELSE 0>>, 1) + Seed) % Slice = 0
+
 Init == fam = "" /\ ni = 0 /\ fn = FALSE /\ al = FALSE /\ op = 0 /\ pi = <<>> /\ fk = <<>>
 
 OptSensitive(i) == NameTab[i].t \in {"elective", "extension", "special"}
 
 Next ==
-  \/ /\ fam = "" /\ fam' = "S0" /\ ni' \in DOMAIN NameTab /\ fn' \in BOOLEAN /\ al' \in BOOLEAN
+  \/ /\ Real /\ fam = "" /\ fam' = "X0" /\ ni' \in {1, 9} /\ fn' \in BOOLEAN /\ al' = FALSE /\ op' = 0
+     /\ UNCHANGED <<pi, fk>>
+  \/ /\ fam = "X0" /\ fam' = "X" /\ UNCHANGED <<ni, fn, al, op>>
+     /\ pi' \in Perms(MaxPath) /\ fk' \in [1..4 -> 1..4] /\ Sampled(pi', fk')
+  \/ /\ Real /\ fam = "" /\ fam' = "XL" /\ ni' \in DOMAIN XSlashNames /\ fk' \in { <<k>> : k \in 1..4 }
+     /\ fn' = FALSE /\ al' = FALSE /\ op' = 0 /\ pi' = <<2>>
+  \/ /\ ~Real /\ fam = "" /\ fam' = "S0" /\ ni' \in DOMAIN NameTab /\ fn' \in BOOLEAN /\ al' \in BOOLEAN
      /\ op' \in 0..3 /\ (op' # 0 => OptSensitive(ni')) /\ UNCHANGED <<pi, fk>>
   \/ /\ fam = "S0" /\ fam' = "S" /\ UNCHANGED <<ni, fn, al, op>>
      /\ pi' \in Perms(MaxPath)
-     /\ fk' \in { f \in [1..4 -> 1..4] : f[2] <= 2 /\ f[4] <= 2 }
-  \/ /\ fam = "" /\ fam' = "L" /\ ni' \in DOMAIN SlashNames /\ fk' \in { <<k>> : k \in 1..4 }
+     /\ fk' \in { f \in [1..4 -> 1..4] : f[2] <= 2 /\ f[4] <= 2 } /\ Sampled(pi', fk')
+  \/ /\ ~Real /\ fam = "" /\ fam' = "L" /\ ni' \in DOMAIN SlashNames /\ fk' \in { <<k>> : k \in 1..4 }
      /\ (ni' = 4 => fk' = <<1>>) /\ fn' = FALSE /\ al' = FALSE /\ op' = 0 /\ pi' = <<2>>
-  \/ /\ fam = "" /\ fam' = "P" /\ ni' \in (1..NCustom) \cup {9} /\ fn' \in BOOLEAN /\ al' = FALSE /\ op' = 0
+  \/ /\ ~Real /\ fam = "" /\ fam' = "P" /\ ni' \in (1..NCustom) \cup {9} /\ fn' \in BOOLEAN /\ al' = FALSE /\ op' = 0
      /\ pi' = <<1>> /\ fk' \in { f \in [1..3 -> 1..3] : f[2] <= 2 /\ f[3] <= 2 }
-  \/ /\ fam = "" /\ fam' = "K" /\ ni' \in DOMAIN KeywordNames /\ fk' \in { <<k>> : k \in 1..2 }
+  \/ /\ ~Real /\ fam = "" /\ fam' = "K" /\ ni' \in DOMAIN KeywordNames /\ fk' \in { <<k>> : k \in 1..2 }
      /\ fn' = FALSE /\ al' = FALSE /\ op' = 0 /\ pi' = <<1>>
 
 Spec == Init /\ [][Next]_vars
 
 Name ==
-  CASE fam \in {"S0", "S", "P"} -> NameTab[ni].n
+  CASE fam \in {"S0", "S", "P", "X0", "X"} -> NameTab[ni].n
     [] fam = "L" -> SlashNames[ni]
+    [] fam = "XL" -> XSlashNames[ni]
     [] fam = "K" -> KeywordNames[ni]
     [] OTHER -> ""
 
-Base == CASE fam = "L" -> "nno" [] OTHER -> Name      \* the file name
+Base == CASE fam \in {"L", "XL"} -> "nno" [] OTHER -> Name      \* the file name
 
 Files ==
   CASE fam = "S" -> SelectSeq([d \in 1..4 |-> [p |-> DirAbs[d] \o "/" \o Base, k |-> Kinds[fk[d]]]], LAMBDA f : f.k # "none")
+    [] fam = "X" -> SelectSeq([d \in 1..4 |-> [p |-> XDirAbs[d] \o "/" \o Base, k |-> Kinds[fk[d]]]], LAMBDA f : f.k # "none")
     [] fam = "L" -> SelectSeq(<<[p |-> SlashAbs[ni], k |-> Kinds[fk[1]]]>>, LAMBDA f : f.k # "none")
+    [] fam = "XL" -> SelectSeq(<<[p |-> XSlashAbs[ni], k |-> Kinds[fk[1]]]>>, LAMBDA f : f.k # "none")
     [] fam = "P" -> SelectSeq(<<[p |-> "/std/" \o Base, k |-> Kinds[fk[1]]], [p |-> "/d1/" \o Base, k |-> Kinds[fk[2]]],
                                 [p |-> "/d2/" \o Base, k |-> Kinds[fk[3]]]>>, LAMBDA f : f.k # "none")
     [] fam = "K" -> SelectSeq(<<[p |-> "/d1/" \o Base, k |-> Kinds[fk[1]]]>>, LAMBDA f : f.k # "none")
@@ -86,21 +111,16 @@ Files ==
 
 State ==
   [fns |-> IF fn THEN {Name} ELSE {}, als |-> IF al THEN {Name} ELSE {}, bi |-> BiTable,
-   path |-> [i \in DOMAIN pi |-> DirTab[pi[i]]], std |-> <<"/std", "/d2">>, files |-> Files, cwd |-> "/w",
+   path |-> [i \in DOMAIN pi |-> IF fam \in {"X", "XL"} THEN XDirTab[pi[i]] ELSE DirTab[pi[i]]], std |-> <<"/std", "/d2">>, files |-> Files, cwd |-> "/w",
    posix |-> op % 2 = 1, portable |-> op >= 2]
 
-RECURSIVE Hash(_, _)
-Hash(q, i) == IF i > Len(q) THEN 7 ELSE (q[i] * 31 + Hash(q, i + 1) * 17) % 10007
-
-Selected ==
-  \/ fam \in {"L", "P", "K"}
-  \/ fam = "S" /\ (Slice <= 1 \/ (Hash(pi \o fk \o <<ni, op, IF fn THEN 1 ELSE 0, IF al THEN 1 ELSE 0>>, 1) + Seed) % Slice = 0)
+Selected == fam \in {"S", "X", "L", "P", "K", "XL"}
 
 (* which queries are put to the shell *)
 IsCustomBuiltin == fam \in {"S", "P"} /\ ni <= NCustom /\ ni > 1
 Ask ==
   CASE fam = "S" -> <<"v", "V", "type", "plain", "cmd">> \o (IF IsCustomBuiltin THEN <<"abortplain", "abortcmd">> ELSE <<>>)
-    [] fam = "L" -> <<"v", "V", "type", "plain", "cmd">>
+    [] fam \in {"L", "X", "XL"} -> <<"v", "V", "type", "plain", "cmd">>
     [] fam = "P" -> <<"v", "pv", "pV", "cmd", "cmdp">> \o (IF IsCustomBuiltin THEN <<"abortcmdp">> ELSE <<>>)
     [] fam = "K" -> <<"v", "V", "type", "pv">>
     [] OTHER -> <<>>
@@ -117,13 +137,13 @@ StateJson(S) == [fns |-> IF fn THEN <<Name>> ELSE <<>>, als |-> IF al THEN <<Nam
 Emit ==
   IF fam = ""
   THEN PrintT(ToJson([hdr |-> TRUE, bi |-> BiTable, ncustom |-> NCustom, keywords |-> Keywords]))
-  ELSE (fam # "S0" /\ Selected) =>
+  ELSE (fam \notin {"S0", "X0"} /\ Selected) =>
          LET S == State IN PrintT(ToJson([fam |-> fam, name |-> Name, S |-> StateJson(S), ask |-> Ask, q |-> Expect(S, Name)]))
 
 ---------------------------------------------------------------------------
 (* laws of the oracle on the enumerated domain                             *)
 Laws ==
-  fam \in {"S", "P", "L", "K"} =>
+  fam \in {"S", "P", "L", "K", "X", "XL"} =>
     LET S == State
         n == Name
         p == Invoke(S, n, "plain")
